@@ -179,6 +179,17 @@ def Instr.operands : Instr R → List Nat
   | .unary _ _ a => [a]
   | .binary _ _ _ a b => [a, b]
 
+/-- does the instruction, or its derivative rule, divide (`÷`, `ln' = 1/x`, `sqrt' = 1/(2 sqrt x)`) -/
+def Instr.usesDiv : Instr R → Bool
+  | .arith .div _ _ => true
+  | .arithNum .div _ _ => true
+  | .swapped .div _ _ => true
+  | .real .ln _ => true
+  | .real .sqrt _ => true
+  | _ => false
+
+def Prog.usesDiv (p : Prog R) : Bool := p.any Instr.usesDiv
+
 def Instr.isVar : Instr R → Bool
   | .var => true
   | _ => false
